@@ -69,7 +69,9 @@ def shard(idx, n, tier):
     variants = [gen.Opts(history=True, max_modules=3, max_insts=4), gen.Opts(history=True, max_modules=2, max_insts=4, arrays=False, pairs=False, prims=False),
                 # reference-heavy: many ports without a connection of their own, kept alive from inside anonymous bundles
                 gen.Opts(history=True, min_modules=2, max_modules=2, max_insts=4, arrays=False, pairs=False, prims=False, open_pct=25, anon_pref_pct=60,
-                         bundle_port_pct=90)]
+                         bundle_port_pct=90),
+                # template-heavy: many `n * inst` arrays made in mid-history beside reference-only nets of scalar ports
+                gen.Opts(history=True, min_modules=2, max_modules=2, max_insts=5, pairs=False, prims=False, bundles=False, open_pct=30, array_pct=40, pref_weight=90, wide=False)]
     for vi, opts in enumerate(variants):
         @hypothesis.seed(env.subseed(PID, idx, vi))
         @settings(max_examples=max(1, nex // len(variants)), database=None, deadline=None, derandomize=False,
